@@ -99,7 +99,7 @@ func userIDForSender(roomID spec.RoomID, senderID spec.SenderID) (*spec.UserID, 
 }
 
 func b64url43(t *sim.Tape) string {
-	return base64.RawURLEncoding.EncodeToString(t.Bytes(32))
+	return base64.RawURLEncoding.EncodeToString(world.CompactBytes(t, "id", 32))
 }
 
 var eventTypes = []string{"m.room.message", "m.room.member", "m.room.create", "m.room.join_rules", "m.room.power_levels",
@@ -191,13 +191,13 @@ func runC04(r *sim.Run) {
 
 	// ---- world
 	led := world.NewLedger()
-	origin := led.Add(world.NewServer(t, "origin.example", base))
-	remote := led.Add(world.NewServer(t, "remote.example", base))
-	auth := led.Add(world.NewServer(t, "auth.example:8448", base))
+	origin := led.Add(world.NewCompactServer(t, "origin.example", base))
+	remote := led.Add(world.NewCompactServer(t, "remote.example", base))
+	auth := led.Add(world.NewCompactServer(t, "auth.example:8448", base))
 	c.verifier = &world.Verifier{L: led}
 	pseudo := c.verName == pseudoIDVer
-	userKey := ed25519.NewKeyFromSeed(t.Bytes(32))
-	otherKey := ed25519.NewKeyFromSeed(t.Bytes(32))
+	userKey := world.NewCompactKey(t, "user")
+	otherKey := world.NewCompactKey(t, "other")
 	sender := "@alice:" + string(origin.Name)
 	other := "@bob:" + string(remote.Name)
 	if pseudo {
